@@ -14,6 +14,7 @@ mod gen;
 mod mcp;
 mod midas;
 mod pack;
+mod reco;
 mod sim;
 mod sym;
 mod util;
@@ -140,6 +141,11 @@ fn main() {
         "deconv" => {
             let mut run = Runner::new(&args);
             deconv::run(&mut run, args.req("data"), args.get("in"), args.num("seed", 1), args.get("tier") == Some("thorough"));
+            run.finish();
+        }
+        "reco" => {
+            let mut run = Runner::new(&args);
+            reco::run(&mut run, args.get("in"), args.num("seed", 1), args.get("tier") == Some("thorough"));
             run.finish();
         }
         "config" => {
